@@ -79,7 +79,7 @@ CHECKS = {
         "level_note": "Trusted base: the reference model in /verif/model (self-tested against hardware AES, host FPU, FIPS-197 C.1, hashlib.blake2b). Held on the triples explored only.",
         "jobs": c02_jobs,
         "post": c02_post,
-        "rule": "directed inputs: per run 1.2 million (thorough: 24 million) candidate inputs are screened with the library's own Blake2b / AesGenerator1R / AesGenerator4R for a first-program configuration whose dataset-offset field is maximal or zero (2^-19 each) and the hits are hashed like every other input; cases are (key, input, version) triples drawn from structured boundary lengths first (key 0/1/12/59/60/61/64/200..., input 0/1/63/64/65/127/128/129/1000/100000...) then random; "
+        "rule": "directed inputs: per run 1.2 million (thorough: 24 million) candidate inputs are screened with the library's own Blake2b / AesGenerator1R / AesGenerator4R for a first-program configuration whose dataset-offset field is maximal or zero (2^-19 each) and the hits are hashed like every other input, together with eight committed inputs (harness/directed_inputs.hpp, re-screened on every run) whose first program has dataset offset 0x7FFFF, 0x7FFFE, 0 or 1, so that both ends are reached by every run; cases are (key, input, version) triples drawn from structured boundary lengths first (key 0/1/12/59/60/61/64/200..., input 0/1/63/64/65/127/128/129/1000/100000...) then random; "
                 "a case is non-trivial when all eight programs ran and digest, 8 program buffers and 8 register files were compared with the reference model; distinct by hash of the triple; determinism clause: a further set of triples is hashed by four separate processes (opt build under MALLOC_PERTURB_ 0 and 255 - the latter with the garbage-filling guard allocator -, the asan build, the portable build) and all digests must agree with each other and with the model",
         "assumptions": MODEL_ASSUMPTIONS,
         "floors": ["cache_bytes_compared", "dataset_items_compared", "programs_compared", "regfiles_compared", "digests_compared_model", "v1_hashes", "v2_hashes"],
